@@ -200,6 +200,10 @@ class Row(Vector):
 		# (Vector.__setitem__ would already have updated the dtype when the storage swap fails)
 		raise SerifTypeError("A Row is a read-only view of a table row; assign through the table: t[row, column] = value")
 
+	def fingerprint(self):
+		# never memoised: the same Row object shows another row after set_index()
+		return self._compute_fingerprint_full()
+
 	def __iter__(self):
 		# Fast iteration for unpacking: x, y, z = row
 		idx = self._index
